@@ -126,6 +126,7 @@ class ConnProxy:
     def next_event(self):
         import h11
 
+        ka_before = self._c._cstate.keep_alive
         try:
             ev = self._c.next_event()
         except h11.RemoteProtocolError as e:
@@ -137,6 +138,9 @@ class ConnProxy:
         o = h11ev_obs(ev)
         self._rig.out.append(["lib", "next_event"] + o)
         self._rig.events_seen.append(o)
+        if isinstance(ev, h11.Request) and not ka_before:
+            # third ghost (Closing_proofs.v): a Request delivered although keep-alive was already off
+            self._rig.out.append(["note", "request-after-close"])
         self._rig.check_states()
         return ev
 
